@@ -103,6 +103,16 @@ func VPH_C11_store() {
 	vp.Assert(cfgGet("foo.com") == &cs.Certificates[0], "common-name-indexed")
 	vp.Assert(cfgGet("x.foo.com") == &cs.Certificates[0], "san-wildcard-indexed")
 	vp.Assert(cfgGet("bar.com") == nil, "strict-no-match")
+	// a second certificate whose common name is not repeated in its SAN list
+	c2, err := tls.X509KeyPair([]byte(vpCert2PEM), []byte(vpKey2PEM))
+	vp.Assert(err == nil, "second-test-pair-loads")
+	s.SetCertificates([]tls.Certificate{c, c2})
+	cs = s.certstore()
+	vp.Assert(len(cs.Certificates) == 2, "published-set-visible")
+	vp.Assert(cfgGet("shop.com") == &cs.Certificates[1], "common-name-indexed-next-to-sans")
+	vp.Assert(cfgGet("SHOP.com.") == &cs.Certificates[1], "common-name-indexed-next-to-sans")
+	vp.Assert(cfgGet("www.shop.com") == &cs.Certificates[1], "san-indexed")
+	vp.Assert(cfgGet("foo.com") == &cs.Certificates[0], "first-certificate-still-indexed")
 	s.SetCertificates(nil)
 	vp.Assert(len(s.certstore().Certificates) == 0 && len(s.certstore().NameToCertificate) == 0, "replacement-is-complete")
 }
